@@ -2990,7 +2990,7 @@ func lemmaForwardSession(raw *rawEnvelope) (e *Session, e3 *Session, accepted bo
 //@   modifies nothing
 //@   ensures result == !t.closed
 
-//@ func (*inProcessTransport).Send
+//@ func (*inProcessTransport).Send :: (t, ctx, e) (result)
 //@   props C04
 //@   requires inprocPair(t) && e != nil && !payloadnil(e) && isKind(e)
 //@   modifies nothing
@@ -3099,7 +3099,7 @@ func lemmaForwardSession(raw *rawEnvelope) (e *Session, e3 *Session, accepted bo
 //@   requires t != nil
 //@   modifies nothing
 //@   ensures [C09] fresh(result) && len(result) == 1 && result[0] == t.e
-//@ func (*websocketTransport).SetEncryption
+//@ func (*websocketTransport).SetEncryption :: (t, ctx, e) (result)
 //@   props C09
 //@   requires t != nil
 //@   modifies nothing
@@ -3114,7 +3114,7 @@ func lemmaForwardSession(raw *rawEnvelope) (e *Session, e3 *Session, accepted bo
 //@   requires t != nil
 //@   modifies nothing
 //@   ensures [C09] fresh(result) && len(result) == 1 && result[0] == t.c
-//@ func (*websocketTransport).SetCompression
+//@ func (*websocketTransport).SetCompression :: (t, ctx, c) (result)
 //@   props C09
 //@   requires t != nil
 //@   modifies nothing
@@ -3129,7 +3129,7 @@ func lemmaForwardSession(raw *rawEnvelope) (e *Session, e3 *Session, accepted bo
 //@   props C09
 //@   modifies nothing
 //@   ensures [C09] fresh(result) && len(result) == 1 && result[0] == SessionCompressionNone
-//@ func (*tcpTransport).SetCompression
+//@ func (*tcpTransport).SetCompression :: (t, ctx, c) (result)
 //@   props C09
 //@   modifies nothing
 //@   ensures [C09] result != nil
@@ -3263,7 +3263,7 @@ func lemmaForwardSession(raw *rawEnvelope) (e *Session, e3 *Session, accepted bo
 //@   props C17
 //@   requires ctx != nil && listener != nil && c != nil
 //@   modifies nothing
-//@   chaninv-local c : v != nil && !payloadnil(v) && v.nSentSes == 0 && v.nRecv == 0
+//@   chaninv-local anychan.Transport : v != nil && !payloadnil(v) && v.nSentSes == 0 && v.nRecv == 0
 //@   loop 0 invariant ctx != nil && listener != nil && c != nil
 //@ census [C17] callers acceptTransports : (*Server).ListenAndServe  ## the only producer of the transport queue (ListenAndServe passes srv.transportChan; that call is not under contract)
 //@ census [C17] senders Server.transportChan : none
